@@ -1,33 +1,60 @@
 #!/venv/bin/python
-"""Print the markdown table of seeded changes vs. checks (DESIGN.md s.8)
-from seeded/*/meta.json and seeded/RESULTS.json."""
+"""Markdown table of seeded changes vs. checks (DESIGN.md section 8) from
+seeded/*/meta.json and seeded/RESULTS.json.
+
+usage: seedtable.py            print the table
+       seedtable.py --design   rewrite it between the markers in DESIGN.md
+"""
 import json
 import os
+import sys
 
 VERIF = os.path.dirname(os.path.dirname(os.path.abspath(__file__)))
-root = os.path.join(VERIF, 'seeded')
-res = json.load(open(os.path.join(root, 'RESULTS.json')))
-print('| change | breaks | where | needs to manifest | caught by (quick) | '
-      'also fires |')
-print('|---|---|---|---|---|---|')
-for name in sorted(os.listdir(root)):
-    d = os.path.join(root, name)
-    if not os.path.isdir(d):
-        continue
-    m = json.load(open(os.path.join(d, 'meta.json')))
-    r = res.get(name, {})
-    own = m['property']
-    caught, also = [], []
-    for k, v in sorted(r.items()):
-        pid = k.split('@')[0]
-        if v['verdict'] == 'CAUGHT':
-            keys = sorted({x.split('|', 1)[1] for x in v['keys']})[:2]
-            caught.append(f"{pid}: {'; '.join(keys)}")
-        elif v['verdict'] == 'MISSED':
-            caught.append(f'{pid}: MISSED')
-        elif v['verdict'] == 'also-fires':
-            also.append(pid)
-    what = m.get('summary') or ''
-    print(f"| {name} | {own} | {', '.join(m['files_changed'])} | {what} | "
-          f"{'<br>'.join(dict.fromkeys(caught))} | "
-          f"{', '.join(dict.fromkeys(also))} |")
+ROOT = os.path.join(VERIF, 'seeded')
+
+
+def table():
+    res = json.load(open(os.path.join(ROOT, 'RESULTS.json')))
+    out = ['| change | breaks | where | what it is / needs to manifest | '
+           'caught by (quick) | also fires |',
+           '|---|---|---|---|---|---|']
+    for name in sorted(os.listdir(ROOT)):
+        d = os.path.join(ROOT, name)
+        if not os.path.isdir(d):
+            continue
+        m = json.load(open(os.path.join(d, 'meta.json')))
+        r = res.get(name, {})
+        caught, also = [], []
+        for k, v in sorted(r.items()):
+            pid = k.split('@')[0]
+            if v['verdict'] == 'CAUGHT':
+                keys = sorted({x.split('|', 1)[1] for x in v['keys']})[:2]
+                caught.append(f"{pid}: {'; '.join(keys)}")
+            elif v['verdict'] == 'MISSED':
+                caught.append(f'{pid}: MISSED')
+            elif v['verdict'] == 'also-fires':
+                also.append(pid)
+        what = (m.get('summary') or '').replace('|', '\\|')
+        caught = [c.replace('|', '\\|') for c in dict.fromkeys(caught)]
+        out.append(
+            f"| {name} | {m['property']} | {', '.join(m['files_changed'])} | "
+            f"{what} | {'<br>'.join(caught)} | "
+            f"{', '.join(dict.fromkeys(also))} |")
+    return '\n'.join(out) + '\n'
+
+
+def main():
+    t = table()
+    if '--design' not in sys.argv:
+        sys.stdout.write(t)
+        return
+    p = os.path.join(VERIF, 'DESIGN.md')
+    s = open(p).read()
+    begin, end = '<!-- seedtable:begin -->', '<!-- seedtable:end -->'
+    a = s.index(begin) + len(begin)
+    b = s.index(end)
+    open(p, 'w').write(s[:a] + '\n' + t + s[b:])
+
+
+if __name__ == '__main__':
+    main()
